@@ -11,6 +11,9 @@ Ops
 * `start`                                    `ExchangeTransformer::init` with all recorded initial events
 * `msg sym U u pu | p:a … | p:a …`           one depth-update message for symbol `sym` (`sym ≥ n` ⇒ not subscribed)
 * `end`                                      whole output list through `with_termination_on_error`, applied to fresh snapshot books
+* `reconnect`                                a new connection for the same consumer: the local books persist, the initial events and the
+                                             transformer are those of the new connection. Until its `start` succeeds no connection is up:
+                                             `msg` / `end` are `bad-op` (as before the first successful `start`), in harness, `model` and `spec`
 * `depth k n`                                the REST request of instrument `k` asks for `limit = n`: the following `snap k` holds
                                              the best `n` levels per side only (`spot/l2.rs:54`, `futures/l2.rs:57`: `limit=100`).
                                              From then on every block that prints `book<k>` / `fbook<k>` also prints one line
@@ -172,7 +175,9 @@ def model : Drv MSt where
       | _, _ => (s, ["bad-op"])
     | ["reconnect"] =>
       -- new connection, same consumer: its books are what the previous connection delivered
-      ({ s with initial := [], persist := if s.started then some s.conn.books else s.persist }, [])
+      -- (no connection is up until the next successful `start`: `msg` / `end` are rejected meanwhile)
+      ({ s with initial := [], started := false,
+                persist := if s.started then some s.conn.books else s.persist }, [])
     | "snap" :: body =>
       match parseSnap? body with
       | some (k, b) => ({ s with initial := s.initial ++ [(k, Event.snapshot b)] }, [])
@@ -231,6 +236,8 @@ structure SInst where
   limit : Option Nat := none
   /-- the prices written by the updates admitted since the snapshot -/
   written : List (Side × Rat) := []
+  /-- the first initial event of the instrument is an `Update` (`snapu`): `init` fails -/
+  invalid : Bool := false
 
 structure SSt where
   rules : Rules
@@ -300,7 +307,7 @@ def spec : Drv SSt where
       | none => (s, ["bad-op"])
     | "snapu" :: body =>
       match parseSnap? body with
-      | some _ => (s, [])
+      | some (k, _) => (s.update k fun i => if i.snapshot.isNone then { i with invalid := true } else i, [])
       | none => (s, ["bad-op"])
     | ["depth", k, n] =>
       match k.toNat?, n.toNat? with
@@ -311,10 +318,13 @@ def spec : Drv SSt where
       -- connection holds for it from its own snapshot on, whatever the previous connection left behind
       ({ s with started := false, told := false,
                 insts := s.insts.map fun i => { i with snapshot := none, constrained := false, inst := ⟨0, 0⟩,
-                                                       written := [] } }, [])
+                                                       written := [], invalid := false } }, [])
     | ["start"] =>
-      -- the property speaks about connections that came up; whether `init` succeeds is not its concern
-      if s.insts.all fun i => i.snapshot.isSome && i.constrained then
+      -- the property speaks about connections that came up; whether `init` succeeds is not its concern: when it
+      -- cannot (an instrument without initial event, or with an `Update` as first one) no connection is up and
+      -- `msg` / `end` are rejected as the harness rejects them
+      if !(s.insts.all fun i => i.snapshot.isSome && !i.invalid) then ({ s with started := false }, []) else
+      if s.insts.all fun i => i.constrained then
         ({ s with started := true }, specBooks "book" s)
       else ({ s with started := true }, [])
     | "msg" :: body =>
